@@ -160,6 +160,7 @@ def attempt(spec, Xfit, Xpred, repo, container="frame"):
         with np.errstate(all="ignore"):
             try:
                 det = build(spec)
+                attempt.last_det = det          # lets the drivers qualify a finding by the fitted state (e.g. a negative threshold_)
                 stage = "fit"
                 det.fit(as_container(Xfit, container))
                 stage = "predict"
@@ -167,6 +168,22 @@ def attempt(spec, Xfit, Xpred, repo, container="frame"):
                 return "done", y, None, None
             except Exception as e:  # noqa: BLE001 - every exception type is an observation here
                 return stage, None, e, site_of(e, repo)
+
+
+attempt.last_det = None
+
+
+def qualify(det_name, slug):
+    """Violation key of a well-formedness finding; a MovingWindow changepoint outside [1, n-1] is qualified by its cause when the fitted
+    threshold is negative (the recorded finding KF1): any other way of producing such a changepoint keeps the plain key and is reported."""
+    if det_name == "MovingWindow" and slug == "changepoint-outside-1..n-1":
+        thr = getattr(attempt.last_det, "threshold_", None)
+        try:
+            if thr is not None and float(thr) < 0:
+                return f"{det_name}:{slug}:negative-fitted-threshold"
+        except (TypeError, ValueError):
+            pass
+    return f"{det_name}:{slug}"
 
 
 # ------------------------------------------------------------------------------------------------ the C04 oracle
